@@ -52,3 +52,4 @@ META = dict(
     technique="Lean 4 proof (case analysis on the S-curve branches, rpow lemmas, list extensionality for the UH "
               "stores, induction over the series) + differential correspondence model vs code and spec vs code",
 )
+READY = True
